@@ -95,9 +95,10 @@ def cli_case(case):
             rf = root / f"res-{uuid.uuid4().hex}.json"
             rf.write_text(json.dumps(it["results"]))
             args = ["--codemod-include", it["codemod"], it["flag"], str(rf)]; ids = [it["codemod"]]
+        before = e2e.read_tree(proj)
         r = e2e.run(proj, args)
         after = e2e.read_tree(proj)
-        errs = validate(r["report"], proj, ids, after) if r["report"] is not None else ["no report written"]
+        errs = validate(r["report"], proj, ids, after, before) if r["report"] is not None else ["no report written"]
         nt = bool(r["report"]) and any(x["changeset"] or x.get("failedFiles") for x in r["report"]["results"])
         return {"rc": r["rc"], "errs": errs[:5], "nontrivial": nt, "args": [a for a in args if "/var/tmp" not in a]}
     finally:
